@@ -98,6 +98,18 @@ def gen_maxrecord_cases(rng, tier):
             yield "str_run " + " ".join(fmt_arg(x) for x in [[B, len(flat(recs))], [3], w] + ops), ["chain", "k2", "max-record"]
 
 
+def gen_leftover_cases(rng, tier):
+    """request parser alone: a preamble followed by look-ahead bytes under every kind of schedule; the harness additionally feeds
+    bytes AFTER the parser reported done (a driver that drains its socket first) and requires them at the tail of the leftover"""
+    for _ in range(120 if tier == "quick" else 6000):
+        B = rng.choice([64, 128, 8192])
+        pairs = rand_pairs(rng, rng.randrange(0, 3), 20)
+        recs, _ = preamble(rng, rng.choice([1, 9]), rng.choice([1, 2, 3]), 1, pairs, junk_rate=0.2, idle=rng.choice([0, 1]))
+        ahead = flat(streams_part(rng, 1, 1, {STDIN: [rng.randrange(256) for _ in range(rng.randrange(0, 60))]}, junk_rate=0.2, no_begin=True))
+        w = flat(recs) + ahead[:rng.randrange(0, len(ahead) + 1)]
+        yield case("req_run", [B], [3], w, schedule(rng, len(w))), ["leftover-after-done"]
+
+
 _gen_cases_chain = gen_cases
 
 
@@ -105,6 +117,7 @@ def gen_cases(rng, tier):
     yield from _gen_cases_chain(rng, tier)
     yield from gen_boundary_cases(rng, tier)
     yield from gen_maxrecord_cases(rng, tier)
+    yield from gen_leftover_cases(rng, tier)
 
 
 def a_gate(ops, o, wire):
@@ -162,7 +175,7 @@ def nontrivial(line, tags):
 
 
 def min_classes(tier):
-    return {"k2": 80, "k3": 80, "k4": 80, "into-input": 100, "boundary-flag": 6, "max-record": 4}
+    return {"k2": 80, "k3": 80, "k4": 80, "into-input": 100, "boundary-flag": 6, "max-record": 4, "leftover-after-done": 120}
 
 
 def oracle(line, impl_line):
@@ -170,6 +183,8 @@ def oracle(line, impl_line):
     o = parse_out(impl_line)
     if o is None or any(x == [18446744073710440504] for x in o):
         return "implementation crashed or panicked"
+    if mode == "req_run":
+        return True            # judged by the model comparison and by the in-harness leftover assertions (a panic is caught above)
     wire, ops = a[2], a[3:]
     if ops and ops[0] == [5, 0] and len(ops) > 2 and ops[1] == [0, 1]:
         BOUNDARY_GATE["gate"] = a[0][1] if len(a[0]) > 1 and a[0][1] else len(wire)
